@@ -8,12 +8,15 @@ import (
 )
 
 
-type chCtx struct{ done chan struct{} }
+type chCtx struct {
+	done      chan struct{}
+	cancelled bool
+}
 
 func (c *chCtx) Deadline() (time.Time, bool) { return time.Time{}, false }
 func (c *chCtx) Done() <-chan struct{}        { return c.done }
 func (c *chCtx) Err() error {
-	if c.done != nil {
+	if c.cancelled {
 		return context.Canceled
 	}
 	return nil
@@ -55,10 +58,20 @@ func H_C13_channel() {
 	if s == nil {
 		return
 	}
+	// the context: never done, done before the call, or becoming done while Process is waiting
 	ctx := &chCtx{}
-	if nondetBool() {
+	switch symLen(0, 2) {
+	case 1:
 		ctx.done = make(chan struct{})
+		ctx.cancelled = true
 		close(ctx.done)
+	case 2:
+		ctx.done = make(chan struct{})
+		go func() {
+			verifYield()
+			ctx.cancelled = true
+			close(ctx.done)
+		}()
 	}
 	var got *eventlogger.Event
 	received := 0
@@ -74,7 +87,13 @@ func H_C13_channel() {
 			}
 		}()
 	}
-	go func() { verifFireTimer() }()
+	// the sink's timeout elapses at some point of the call, or is far away (an hour or more: it plays no part)
+	// (only with a context that is or becomes done: otherwise waiting for the timeout is the specified behaviour)
+	if ctx.done == nil || nondetBool() {
+		go func() { verifFireTimer() }()
+	} else {
+		verifAssume(d >= 3600000000000)
+	}
 	e := &eventlogger.Event{Type: "t"}
 	out, perr := s.Process(ctx, e)
 	verifYield()
